@@ -35,10 +35,13 @@ Consume ==
            b5 == IF \E o \in prev : ById(c, o[1]) = {} /\ ~(completes /\ e.res = "ok" /\ Overl(o, h)) /\ ~(completes /\ e.res = "noop")
                    THEN {<<tr, "OnlyDisplacedDisappear", l>>} ELSE {}
            \* a parked PreCheck and ground-truth steps change nothing
-           b6 == IF ~completes /\ e.ev # "end" /\ c # prev THEN {<<tr, "ChangedWithoutHeartbeat", l>>} ELSE {}
+           \* (a restart loads the served set back from storage: same regions, no terms)
+           b6 == IF ~completes /\ e.ev \notin {"end", "Restart"} /\ c # prev THEN {<<tr, "ChangedWithoutHeartbeat", l>>} ELSE {}
+           b8 == IF e.ev = "Restart" /\ {<<x[1], x[2], x[3], x[4], x[5]>> : x \in c} # {<<x[1], x[2], x[3], x[4], x[5]>> : x \in prev}
+                   THEN {<<tr, "RestartServesWhatWasServed", l>>} ELSE {}
            meta(S) == {<<x[1], x[2], x[3], x[4], x[5]>> : x \in S}
            b7 == IF e.ev = "end" /\ ~e.concurrent /\ meta(ToSet(e.stored)) # meta(c) THEN {<<tr, "SequentialStorageEqualsCache", l>>} ELSE {}
-       IN tr' = tr /\ prev' = c /\ bad' = bad \cup b1 \cup b2 \cup b3 \cup b4 \cup b5 \cup b6 \cup b7
+       IN tr' = tr /\ prev' = c /\ bad' = bad \cup b1 \cup b2 \cup b3 \cup b4 \cup b5 \cup b6 \cup b7 \cup b8
 Spec == Init /\ [][Consume]_vars
 HW == IF l > TLCGet(1) THEN TLCSet(1, l) /\ TLCSet(2, bad) ELSE TRUE
 AllConsumed == PrintT(<<"HW", TLCGet(1)>>) /\ PrintT(<<"BAD", TLCGet(2)>>) /\ TLCGet(1) = Len(Trace) + 1
